@@ -286,6 +286,7 @@ def run_correspondence(ck, known):
             if any(ch in v for ch in b"'\\\x00\n\r\x08\t\x1a%_-/*#") or any(ch >= 0x80 for ch in v):
                 distinct.add(c["site"] + "|" + c["val"])
     run_fmt_tie(ck)
+    run_fmt_int_tie(ck)
     run_bind_tie(ck)
     ck.obligation("every site has a baseline statement", nbad_base == 0, "%d cases without baseline" % nbad_base)
     # round 6 (seeded C10-f): statements handed to a session are recorded at the wire, behind the repository's StableSqlxDBWrapper and the
@@ -662,6 +663,7 @@ def run_sites(ck):
     ck.extra["sql_sites"]["constant_formats_[decomposed,compared_with_package_fmt,differ]"] = [fc.get("Sites"), fc.get("Compared"), fc.get("Differ")]
     ck.obligation("the analyser's decomposition of the constant Sprintf formats agrees with package fmt's own output over sentinel operands (%s of %s formats compared)"
                   % (fc.get("Compared"), fc.get("Sites")), fc.get("Differ") == 0 and (fc.get("Compared") or 0) >= 80, json.dumps(fc))
+    run_fmt_sites_tie(ck, meta)
     # round 6 (seeded C10-f): a statement handed to a session WITH bind arguments is interpreted once more, by the driver's client-side
     # bind ($n / ? / @name are rewritten inside rendered literals): such a call must have a constant statement, or no argument ever
     # reaches it (forwarded variadic parameters are followed to their suppliers); otherwise the site carries an unclassified part
@@ -860,6 +862,125 @@ def run_fmt_tie(ck):
                       "nargs": r["nargs"], "fmt_printed": bytes.fromhex(r["out"]).decode("utf8", "backslashreplace"),
                       "broken": "correspondence model/GoFmt.v vs package fmt"}, no_input=True)
     ck.extra["gofmt_tie"] = {"formats": len(rows), "inside_the_modelled_fragment": inside, "outside": sum(1 for v in verd if v == 2)}
+    with vcheck_lock():
+        ck.coverage["evaluations"] += inside
+
+
+def coq_operand(o):
+    """typed operand "s:<hex>" / "i:<decimal>" / "l:<decimal>" as a GoFmtInt.operand"""
+    if o.startswith("s:"):
+        return "OStr %s" % vcheck.coq_string(bytes.fromhex(o[2:]))
+    return 'OInt "%s" (%s)%%Z' % ("int" if o[0] == "i" else "int64", o[2:])
+
+
+def eval_fmt2(ck, name, triples):
+    """fmt_verdict2 of model/GoFmtInt.v on (format bytes, typed operands, printed bytes); None when Coq failed"""
+    cs = vcheck.coq_string
+    body = ";\n  ".join("(%s, [%s], %s)" % (cs(f), "; ".join(coq_operand(o) for o in ops), cs(o_)) for f, ops, o_ in triples)
+    txt = ("From Coq Require Import List String Ascii ZArith.\nFrom Qryn Require Import model.GoFmt model.GoFmtInt.\nImport ListNotations.\nOpen Scope string_scope.\n"
+           "Definition cases : list fmt_case2 := [\n  " + body + "].\n"
+           "Definition R := Eval vm_compute in map fmt_verdict2 cases.\nPrint R.\n")
+    rc, out = ck.coq_eval(name, txt)
+    flat = " ".join(out.split())
+    m = re.search(r"R = \[(.*?)\]\s*: list nat", flat)
+    if rc != 0 or not m:
+        ck.obligation("model/GoFmtInt.v evaluated (%s)" % name, False, out[-1500:])
+        return None
+    verd = [int(x) for x in re.findall(r"\d+", m.group(1))]
+    if len(verd) != len(triples):
+        ck.obligation("model/GoFmtInt.v evaluated (%s)" % name, False, "%d verdicts for %d cases" % (len(verd), len(triples)))
+        return None
+    return verd
+
+
+def run_fmt_int_tie(ck):
+    """round 8: model/GoFmtInt.v (fmt's doPrintf over string AND integer operands) against the real fmt.Sprintf on generated formats"""
+    import random
+    rnd = random.Random(int(ck.seed) + 8)
+    texts = [b"a", b" LIMIT ", b"'", b"\\", b"(", b")", b"x'y", b"toDateTime(", b", ", b"--", b"-", b"\n", b"=", b"", b"1", b" - "]
+    verbs = [b"%d", b"%s", b"%v", b"%d", b"%%", b"%d%d", b"%'", b"%\\", b"%!", b"%z", b"%t", b"%e", b"%f", b"%g", b"%S", b"%D", b"%)", b"%_",
+             b"%b", b"%o", b"%O", b"%c", b"%U", b"%q", b"%x", b"%X", b"%5d", b"%-d", b"%+d", b"%05d", b"%[1]d", b"%.3d", b"% d", b"%T"]
+    ints = ["i:0", "i:1", "i:-1", "i:100", "i:7001", "i:-7002", "i:1700000000", "l:0", "l:-1", "l:1700000000000000000", "l:9223372036854775807",
+            "l:-9223372036854775808", "i:10", "i:-10", "l:1000000000", "i:99999", "l:-100000"]
+    strs = ["s:" + b.hex() for b in (b"INNER ANY", b"zq'x", b"", b"1; DROP", b"'", b"\\", b"7", b"-")]
+
+    def operand():
+        if rnd.random() < 0.65:
+            if rnd.random() < 0.3:
+                return ("i:%d" if rnd.random() < 0.5 else "l:%d") % rnd.choice([rnd.randint(-10**6, 10**6), rnd.randint(-2**63, 2**63 - 1), rnd.randint(-9, 9) * 10**rnd.randint(0, 18)])
+            return rnd.choice(ints)
+        return rnd.choice(strs)
+    fixed = [(b"SELECT 1 LIMIT %d", ["i:100"]), (b"SELECT 1 LIMIT %d", ["s:" + b"'".hex()]), (b"%s|%d|%v", ["i:5", "s:" + b"a".hex(), "l:7", "s:" + b"b".hex()]),
+             (b"%d", []), (b"%d", ["l:-9223372036854775808"]), (b"%v%v", ["i:-3", "l:4"]), (b"", ["i:1", "l:2"]), (b"%", ["i:1"]), (b"%d %s", ["i:1"]),
+             (b"toDateTime(%d) AND val == %s LIMIT %d", ["l:-1700000000", "s:" + b"'x'".hex(), "i:100"])]
+    cases = list(fixed)
+    for _ in range(int(ck.n(260, 3000))):
+        k = rnd.randint(1, 4)
+        f = b"".join(rnd.choice(texts) + (rnd.choice(verbs[:18]) if rnd.random() < 0.9 else rnd.choice(verbs)) for _ in range(k)) + rnd.choice(texts)
+        cases.append((f, [operand() for _ in range(rnd.randint(0, 4))]))
+    inp = os.path.join(ck.work, "fmt2_in.jsonl")
+    with open(inp, "w") as fh:
+        for f, ops in cases:
+            fh.write(json.dumps({"site": "gofmt", "val": f.hex(), "ops": ops}) + "\n")
+    outp = os.path.join(ck.work, "fmt2_out.jsonl")
+    rc, out = ck.go_run("sqlinject", ["--cases", inp, "--out", outp])
+    rows = [json.loads(l) for l in open(outp)] if rc == 0 and os.path.exists(outp) else []
+    rows = [r for r in rows if r.get("kind") == "fmt2"]
+    if not ck.obligation("harness sqlinject printed the generated formats over string and integer operands with the real fmt.Sprintf (%d)" % len(rows),
+                         rc == 0 and len(rows) == len(cases), out[-800:]):
+        return
+    verd = eval_fmt2(ck, "C10_gofmtint", [(bytes.fromhex(r["format"]), r["ops"], bytes.fromhex(r["out"])) for r in rows])
+    if verd is None:
+        return
+    bad = [r for r, v in zip(rows, verd) if v == 1]
+    inside = sum(1 for v in verd if v == 0)
+    with_int = sum(1 for r, v in zip(rows, verd) if v == 0 and any(not o.startswith("s:") for o in r["ops"]) and b"%d" in bytes.fromhex(r["format"]))
+    badverb = sum(1 for r, v in zip(rows, verd) if v == 0 and b"%!d(string=" in bytes.fromhex(r["out"]))
+    ck.obligation("model/GoFmtInt.v = package fmt: fmt_go2 format operands is what the real fmt.Sprintf printed, on %d generated formats inside the modelled fragment "
+                  "(%d with an integer under %%d, %d with a string under %%d; %d outside: flags, index, width, precision, %%b %%o %%c %%U %%q %%x %%T)"
+                  % (inside, with_int, badverb, sum(1 for v in verd if v == 2)), not bad and inside >= 100 and with_int >= 40 and badverb >= 5,
+                  "; ".join("%r %r -> %r" % (bytes.fromhex(r["format"]), r["ops"], bytes.fromhex(r["out"])) for r in bad[:3]))
+    if bad:
+        r = bad[0]
+        ck.violation({"property": "C10", "kind": "model/GoFmtInt.v disagrees with package fmt", "format": bytes.fromhex(r["format"]).decode("utf8", "backslashreplace"),
+                      "ops": r["ops"], "fmt_printed": bytes.fromhex(r["out"]).decode("utf8", "backslashreplace"),
+                      "broken": "correspondence model/GoFmtInt.v vs package fmt"}, no_input=True)
+    ck.extra["gofmtint_tie"] = {"formats": len(rows), "inside_the_modelled_fragment": inside, "integer_under_%d": with_int, "string_under_%d": badverb,
+                                "outside": sum(1 for v in verd if v == 2)}
+    with vcheck_lock():
+        ck.coverage["evaluations"] += inside
+
+
+def run_fmt_sites_tie(ck, meta):
+    """round 8: EVERY constant Sprintf format of the repository's SQL construction sites goes through model/GoFmtInt.v with operands of the
+    kinds the site has (census: strings with a quote and a backslash; positive, negative, extreme integers): the model's text = what
+    package fmt printed in the analyser = the text the analyser's decomposition stands for"""
+    recs = meta.get("fmt_model") or []
+    if not ck.obligation("the census hands over the constant formats of the repository's Sprintf sites with operands of their kinds (%d)" % len(recs), len(recs) >= 80):
+        return
+    triples, ops_of = [], []
+    for r in recs:
+        ops = [("s:" + o["v"]) if o["k"] == "s" else (("i:" if o.get("ty") == "int" else "l:") + o["v"]) for o in (r["ops"] or [])]
+        ops_of.append(ops)
+        triples.append((bytes.fromhex(r["format"]), ops, bytes.fromhex(r["out"])))
+    verd = eval_fmt2(ck, "C10_gofmtsites", triples)
+    if verd is None:
+        return
+    bad = [r for r, v in zip(recs, verd) if v == 1 or (v == 0 and r["out"] != r["expect"])]
+    inside = sum(1 for v in verd if v == 0)
+    numeric = sum(1 for r, v in zip(recs, verd) if v == 0 and any(o["k"] == "d" for o in (r["ops"] or [])))
+    outside = [(r["file"], r["line"], bytes.fromhex(r["format"]).decode("utf8", "replace")) for r, v in zip(recs, verd) if v == 2]
+    ck.obligation("model/GoFmtInt.v prints every constant Sprintf format of the repository's SQL sites as package fmt does and as the census reads it "
+                  "(%d formats, %d with an integer under %%d; %d outside the modelled fragment: flags / width)" % (inside, numeric, len(outside)),
+                  not bad and inside >= 80 and numeric >= 8,
+                  "; ".join("%s:%s %r" % (r["file"], r["line"], bytes.fromhex(r["format"])) for r in bad[:3]))
+    if bad:
+        r = bad[0]
+        ck.violation({"property": "C10", "kind": "a constant Sprintf format of the repository is printed by package fmt differently from model/GoFmtInt.v or from the census's decomposition",
+                      "file": r["file"], "line": r["line"], "format": bytes.fromhex(r["format"]).decode("utf8", "backslashreplace"), "operands": r["ops"],
+                      "fmt_printed": bytes.fromhex(r["out"]).decode("utf8", "backslashreplace"), "decomposition": bytes.fromhex(r["expect"]).decode("utf8", "backslashreplace"),
+                      "broken": "correspondence model/GoFmtInt.v vs the repository's formats"}, no_input=True)
+    ck.extra["gofmt_sites_tie"] = {"formats": len(recs), "inside_the_modelled_fragment": inside, "with_an_integer_under_%d": numeric, "outside": outside[:20]}
     with vcheck_lock():
         ck.coverage["evaluations"] += inside
 
